@@ -111,7 +111,7 @@ class K03(Harness):
 
     def params(self, tier):
         if tier == "quick":
-            return [{"K": 1, "pmax": 7, "fp_str": False}, {"K": 1, "pmax": 7, "fp_str": True}, {"K": 2, "pmax": 4, "fp_str": False}]
+            return [{"K": 1, "pmax": 7, "fp_str": False}, {"K": 1, "pmax": 7, "fp_str": True}, {"K": 2, "pmax": 3, "fp_str": False}]
         return [{"K": 1, "pmax": 7, "fp_str": False}, {"K": 1, "pmax": 7, "fp_str": True}, {"K": 2, "pmax": 7, "fp_str": False}, {"K": 3, "pmax": 2, "fp_str": False, "lite": True}]
 
     def run(self, eng, p):
@@ -164,7 +164,7 @@ class K13b(Harness):
 
     def params(self, tier):
         if tier == "quick":
-            return [{"K": 2, "pmax": 5}]
+            return [{"K": 2, "pmax": 3}]
         return [{"K": 2, "pmax": 7}, {"K": 3, "pmax": 2}]
 
     def run(self, eng, p):
